@@ -153,6 +153,9 @@ func (vc *VC) collectMapKinds(h *Heap) {
 	}
 	fwalk(vc.fn, 0)
 	vc.mapLen(h)
+	for _, g := range sortedKeys(vc.CS.Ghosts) {
+		vc.ghostHeap(h, g)
+	}
 }
 
 // ---------------------------------------------------------------- driver
@@ -642,6 +645,9 @@ func (vc *VC) havocLoop(li *loopInfo, h *Heap) {
 	}
 	if mapsTouched {
 		for _, k := range sortedKeys(h.M) {
+			if strings.HasPrefix(k, "G_") {
+				continue // ghost state changes only through contracts
+			}
 			h.M[k] = vc.declare(vc.fresh(k), vc.mapHeapSort(k))
 		}
 	}
@@ -785,6 +791,9 @@ func (vc *VC) frameObligation(r retRec, pos string) error {
 			return fmt.Errorf("%s: modifies %s: %v", vc.key, m.Src, err)
 		}
 		for _, x := range ml {
+			if x.ghost != "" || x.allMaps || x.isMap {
+				continue
+			}
 			locs = append(locs, loc{x.a, x.n, x.allIdx, x.allObj})
 		}
 	}
@@ -815,8 +824,14 @@ func (vc *VC) frameObligation(r retRec, pos string) error {
 		if r.heap.M[k] != vc.root().heap0M(k) {
 			okm := false
 			for _, m := range vc.ct.Modifies {
-				if strings.Contains(m.Src, "maps") {
+				if strings.Contains(m.Src, "maps") && !strings.HasPrefix(k, "G_") {
 					okm = true
+				}
+				if strings.HasPrefix(k, "G_") && strings.TrimSpace(m.Src) == strings.TrimPrefix(k, "G_") {
+					okm = true
+				}
+				if _, isIx := m.E.(*EIndex); isIx && !strings.HasPrefix(k, "G_") {
+					okm = true // x.m[*]: contents of a map (coarse: any map heap)
 				}
 			}
 			if !okm {
